@@ -14,7 +14,7 @@ ProfileFn findProfile(const std::string& name) {
 	return nullptr;
 }
 
-bool synthInitial(const json& spec, NifFile& nif, Ctx& ctx);    // gen.cpp
+bool synthInitial(const json& spec, NifFile& nif, Ctx& ctx, std::string* fileBytes);    // gen.cpp
 bool builderInitial(const json& spec, NifFile& nif, Ctx& ctx);  // builders.cpp
 
 bool makeInitial(const json& src, NifFile& nif, Ctx& ctx, std::string* fileBytes) {
@@ -28,7 +28,7 @@ bool makeInitial(const json& src, NifFile& nif, Ctx& ctx, std::string* fileBytes
 		nif.Create(versionByName(src["create"].get<std::string>()));
 		return true;
 	}
-	if (src.contains("synth")) return synthInitial(src["synth"], nif, ctx);
+	if (src.contains("synth")) return synthInitial(src["synth"], nif, ctx, fileBytes);
 	if (src.contains("builder")) {
 		if (!builderInitial(src["builder"], nif, ctx)) return false;
 		if (jbool(src, "settle", false)) {
